@@ -31,7 +31,9 @@ func FuzzVerifC03(f *testing.F) {
 		}
 		tg := targets[int(sel)%len(targets)]
 		rr := vh.NewR(uint64(gas), uint64(sel))
-		if pn, msg, st := vh.Guard(func() { tg.run(b, rr) }); pn {
+		eb := make([]byte, len(b)) // the fuzzing engine's buffers have spare capacity: hand the parser one without
+		copy(eb, b)
+		if pn, msg, st := vh.Guard(func() { tg.run(eb, rr) }); pn {
 			t.Fatalf("go runtime panic in %s: %s [%s]", tg.name, msg, st)
 		}
 	})
